@@ -4,7 +4,7 @@ from .. import gen
 from ..gen import Opt, schema_lines, LIST, MULTI, TITLE, NOCASE, COMMENTS, DEPRECATED, KEYSTRVAL, NO_TITLE_DUPES, dbits
 
 THEOREMS = ["C05_str", "C05_int", "C05_bool", "C05_null_prints_empty", "dqRun_escBody", "decDigits_spec", "C05_name", "C05_name_plain", "C05_name_quoted",
-            "C05_flat_roundtrip", "flat_steps", "opt_step", "lex_opts", "lex_value", "loop_steps", "pstep_pending", "lexSteps_length"]
+            "C05_flat_roundtrip", "C05_flat_fixpoint", "printOpts_congr", "flat_steps", "opt_step", "lex_opts", "lex_value", "loop_steps", "pstep_pending", "lexSteps_length"]
 PARTIAL = ("Proved (leaf round trips, unbounded): every string or title without NUL printed by cfg_print scans back to itself in any environment "
            "(C05_str: quotes, backslashes, '${', newlines, comment markers - induction over the bytes); every long printed with %ld converts "
            "back to itself (C05_int, via the numeral-grammar theorem of C04 and a digit lemma); booleans (C05_bool); every option name - the keys of a "
@@ -14,12 +14,12 @@ PARTIAL = ("Proved (leaf round trips, unbounded): every string or title without 
            "options are top-level integer / boolean / string options, scalar or list of any length, without callbacks, annotations or print filter "
            "(cells in range, non-NULL, NUL-free), scanned by the scanner model, taken by the parse loop and fed through the token machine into ANY "
            "context with the same declarations (names distinct under its case rule), whatever that context held: accepted, and every option holds "
-           "exactly the printed value sequence. Ingredients: the printed text scans to the options' tokens (lex_opts, by induction over options and "
+           "exactly the printed value sequence; and when that context carries no annotations, print callbacks or filter (as cfg_init makes it) the text printed for the re-parsed configuration is byte for byte the first text (C05_flat_fixpoint). Ingredients: the printed text scans to the options' tokens (lex_opts, by induction over options and "
            "values), the loop over one source takes exactly the scanned tokens (loop_steps; pstep_pending: only the ')' of a call can ask for an "
            "include; lexSteps_length: there is fuel for every token), each option's tokens are one closed-form update of that option "
            "(opt_step from C01_assign_denotes / C01_list_item), options do not disturb each other (flat_steps). Not proved: the float leaf (printf %f "
            "then strtod reproduces the printed text - argued in DESIGN.md, checked by the oracle on boundary doubles), sections (the recursion "
-           "through C01_refinement), unset / NULL-string options (K01), and the fixpoint clause; these are what the implementation-side oracle (print, "
+           "through C01_refinement), unset / NULL-string options (K01), and the fixpoint clause beyond flat configurations; these are what the implementation-side oracle (print, "
            "parse into a fresh context, compare, print, compare, cycle again) checks on every case.")
 VARIANT = "asan"
 RULE = ("schemas of printable kinds (int, float, bool, string, lists, plain/multi/titled sections, no deprecated or free-form "
